@@ -140,6 +140,9 @@ type c19Gen struct {
 func (g *c19Gen) node(depth int) *c19Node {
 	g.budget--
 	k := g.r.IntN(12)
+	if depth == 0 && g.r.IntN(4) != 0 {
+		k = 6 + g.r.IntN(6) // mostly a composite at the root
+	}
 	if depth >= 3 || g.budget <= 0 {
 		k = g.r.IntN(6)
 	}
